@@ -33,6 +33,8 @@ type D struct {
 	// LoadVal, when non-nil, resolves a load of a reassigned local to the value
 	// last stored to it on the current path.
 	LoadVal func(*ssa.UnOp) ssa.Value
+	// SubstVal: parameters of a helper rendered inline that were passed constants
+	SubstVal map[*ssa.Parameter]*ssa.Const
 	// FreeVal, when non-nil, gives the constant a captured variable is bound to
 	FreeVal func(*ssa.FreeVar) (string, bool)
 	// AllocAt, when non-nil, gives the value last stored to the whole of a
@@ -914,6 +916,12 @@ func (d *D) inlinePure(c *ssa.Call) (string, bool) {
 	for i, q := range h.Params {
 		if i < len(c.Common().Args) {
 			sub.Subst[q] = d.Of(c.Common().Args[i])
+			if k, ok := c.Common().Args[i].(*ssa.Const); ok {
+				if sub.SubstVal == nil {
+					sub.SubstVal = map[*ssa.Parameter]*ssa.Const{}
+				}
+				sub.SubstVal[q] = k
+			}
 		}
 	}
 	return sub.Of(ret.Results[0]), true
@@ -936,6 +944,12 @@ func (d *D) inlinePureCond(c *ssa.Call) (ssa.Value, *D, bool) {
 	for i, q := range h.Params {
 		if i < len(c.Common().Args) {
 			sub.Subst[q] = d.Of(c.Common().Args[i])
+			if k, ok := c.Common().Args[i].(*ssa.Const); ok {
+				if sub.SubstVal == nil {
+					sub.SubstVal = map[*ssa.Parameter]*ssa.Const{}
+				}
+				sub.SubstVal[q] = k
+			}
 		}
 	}
 	return ret.Results[0], sub, true
@@ -953,6 +967,11 @@ func (d *D) foldConv(src ssa.Value, to types.Type) (string, bool) {
 			}
 		}
 		break
+	}
+	if q, isParam := src.(*ssa.Parameter); isParam && d.SubstVal != nil {
+		if k := d.SubstVal[q]; k != nil {
+			src = k
+		}
 	}
 	c, ok := src.(*ssa.Const)
 	if !ok || c.Value == nil || c.Value.Kind() != constant.Int {
